@@ -151,3 +151,7 @@ fn c19_delta_header_alloc_bounded() {
     core::mem::forget(r);
     assert!(is_err, "a miniblock count that cannot fit in the page is an error");
 }
+
+// (A variant of the resume obligation through try_new over page bytes - independent of the decoder's
+// private fields - was tried: block size 128 / one miniblock did not finish in 1800 s. A change that
+// alters the decoder's fields therefore makes these harnesses fail to build: exit 2, inconclusive.)
